@@ -798,12 +798,30 @@ def run(tier, seed, replay):
                    "expm": lambda: _data.expm(_data.mul(Y, 0.125)), "reshape": lambda: _data.reshape(Y, n * n, 1), "matmul": lambda: _data.matmul(Y, Y),
                    "add": lambda: _data.add(Y, Y), "kron": lambda: _data.kron(Y, Y), "transpose": lambda: _data.transpose(Y), "to-dense": lambda: _data.to(_data.Dense, Y),
                    "to-csr": lambda: _data.to(_data.CSR, Y), "ptrace": lambda: _data.ptrace(Y, [2, n // 2], [0]), "copy": lambda: Y.copy(), "extract": lambda: _data.extract(Y),
-                   "trace": lambda: _data.trace(Y), "column_stack": lambda: _data.column_stack(Y.copy())}
+                   "trace": lambda: _data.trace(Y), "column_stack": lambda: _data.column_stack(Y.copy()),
+                   "expm-direct": lambda: _data.expm(Y), "scipy-sum": lambda: complex(Y.as_scipy().sum()) if hasattr(Y, "as_scipy") else complex(Y.to_array().sum()),
+                   "scipy-coo": lambda: Y.as_scipy().tocoo().toarray() if hasattr(Y, "as_scipy") else Y.to_array()}
             refs = {"to_array": want, "as_scipy": want, "expm": sla.expm(0.125 * want), "reshape": want.reshape(n * n, 1), "matmul": want @ want, "add": 2 * want, "kron": np.kron(want, want),
                     "transpose": want.T, "to-dense": want, "to-csr": want, "ptrace": np.einsum("ajbj->ab", want.reshape(2, n // 2, 2, n // 2)), "copy": want, "extract": want,
-                    "trace": np.trace(want), "column_stack": want.reshape(-1, 1, order="F")}
+                    "trace": np.trace(want), "column_stack": want.reshape(-1, 1, order="F"), "expm-direct": sla.expm(want), "scipy-sum": complex(want.sum()), "scipy-coo": want}
             for name, fn in seq.items():
                 attempt("after-inplace-tidyup:" + name, fn, [form], None, refs[name], tol=1e-9, data={"form": form, "A": str(A.tolist()), "removed_offset": off})
+    # ... and on diagonal matrices (the exponential has a route of its own for them)
+    for it in range(4 if tier == "quick" else 20):
+        n = int(rng.integers(2, 6))
+        dv = rng.integers(1, 4, n).astype(complex)
+        dv[int(rng.integers(0, n))] = 1e-13
+        A = np.diag(dv)
+        for form in ("csr", "csr_view", "dia", "dia_view", "dense_c"):
+            X = build(A, form, rng)
+            if hasattr(X, "as_scipy"):
+                X.as_scipy()
+            with warnings.catch_warnings():
+                warnings.simplefilter("ignore")
+                Y = _data.tidyup(X, 1e-8, True)
+            want = np.where(np.abs(A) < 1e-8, 0, A)
+            attempt("after-inplace-tidyup:expm-diagonal", lambda: _data.expm(Y), [form], None, sla.expm(want), tol=1e-9, data={"form": form, "diagonal": [str(x) for x in dv]})
+            attempt("after-inplace-tidyup:Qobj.expm-diagonal", lambda: qutip.Qobj(Y).expm().full(), [form], None, sla.expm(want), tol=1e-9, data={"form": form, "diagonal": [str(x) for x in dv]})
     for sig, (what, data) in viol.items():
         rep.violation(core.Violation("C01:" + sig, what, data))
     if (ndis or not proved) and not rep.violations:
